@@ -48,6 +48,9 @@ Inductive types_case :=
 | THexWords (ws : list Z) (hexs : list Z) (back : option (list Z)) (back_upper : option (list Z))   (* hex_str_from_words, words_from_hex_str *)
 | TDisplay (kind : Z) (bytes : list Z) (shown : list Z) (parsed : option (list Z)) (parsed_lower : option (list Z))
                                                                         (* Display then FromStr; kind 32 = ContentAddress, 65 = Signature *)
+| TSerdeOther (kind : Z) (json_ok : bool) (postcard_ok : bool) (display_ok : bool)
+          (* 1 Predicate 2 Contract 3 SignedContract 4 Program 5 Mutation 6 Solution 7 PredicateAddress 8 Signature 9 ContentAddress:
+             the implementation's own JSON and postcard round trips (and Display/FromStr where defined) *)
 | TSerdeSolutionSet (sols : list solution) (tree : sval) (back_ok : bool) (legacy_ok : bool) (postcard_ok : bool).
           (* serde_json::to_value; from_value(tree) == value; legacy field names accepted; postcard round trip *)
 
@@ -101,6 +104,7 @@ Definition types_mismatch (c : types_case) : bool :=
   | THexWords ws hexs back _ => negb (zlist_eqb (words_to_hex ws) hexs && option_eqb zlist_eqb (words_from_hex hexs) back)
   | TDisplay kind bytes shown parsed _ =>
       negb (zlist_eqb (display_addr bytes) shown && option_eqb zlist_eqb (parse_addr (Z.to_nat kind) shown) parsed)
+  | TSerdeOther _ _ _ _ => false
   | TSerdeSolutionSet sols tree _ _ _ =>
       (* the model's deserialiser reads the implementation's tree back to the value (field order is irrelevant) *)
       negb (match de_hr_solution_set tree with Some l => list_eqb sol_eqb_full l sols | None => false end)
@@ -166,6 +170,7 @@ Definition types_spec_fail (c : types_case) : bool :=
   | THexWords ws _ back back_upper => negb (option_eqb zlist_eqb back (Some ws) && option_eqb zlist_eqb back_upper (Some ws))
   | TDisplay _ bytes _ parsed parsed_lower =>
       negb (option_eqb zlist_eqb parsed (Some bytes) && option_eqb zlist_eqb parsed_lower (Some bytes))
+  | TSerdeOther _ j p d => negb (j && p && d)
   | TSerdeSolutionSet _ _ back_ok legacy_ok postcard_ok => negb (back_ok && legacy_ok && postcard_ok)
   end.
 
